@@ -592,8 +592,11 @@ def run_property(pid, tier, seed, replay_file=None):
         'wall_s': round(time.time() - t0, 2),
         'violations': len(violations),
     }
-    os.makedirs(os.path.join(VERIF, 'evidence'), exist_ok=True)
-    with open(os.path.join(VERIF, 'evidence', pid + '.json'), 'w') as fh:
+    # evidence/ only ever describes runs against /repo itself; a run against another tree
+    # (LC_REPO=<scratch worktree with a seeded change>) leaves its record under run/
+    evdir = os.path.join(VERIF, 'evidence') if os.path.realpath(REPO) == '/repo' else os.path.join(RUN, 'evidence-other-tree')
+    os.makedirs(evdir, exist_ok=True)
+    with open(os.path.join(evdir, pid + '.json'), 'w') as fh:
         json.dump(ev, fh, indent=1)
 
     for kfid, cnt in sorted(known_seen.items()):
